@@ -8,6 +8,16 @@ props = [json.loads(l) for l in open(V / "properties.jsonl")]
 
 # id -> (category, technique, level text, level note, design ref)
 CHECKS = {
+ "C01": ("exploration",
+         "TLA+ specifications as generator (Combinators.tla builder machine supplies the compositions, Elementary.tla the boundary sets and their kink/smooth classification; TLC run at check time); round-trip identity judged on the real code in float64 with conditioning-scaled tolerances",
+         "The oracle is the property's own identity (inverse(transform(x)) = x, transform(inverse(y)) = y, the '...and_log_det' point equals the plain one), which no specification can compute for transcendental maps; the specifications contribute the space: every leaf class x parameter regime with its boundary-directed inputs (spline interval ends / knots / float neighbours, +-max_val, +-tanh(max_val), arctanh singularities, planar hyperplane, large magnitudes), TLC-enumerated compositions with real leaves filled in (only onto-R leaves under an Invert), and the bijection of every flow factory x invert x condition x transformer. The exact-integer composite part is model-checked under C08.",
+         "float64; tolerance 256 eps (1+|x|+|y|) cond(J) with J the autodiff Jacobian; bisection-inverted maps use the per-coordinate error recursion (factor 4); points with cond(J) > 1e11 or overflowing images carry no promise.",
+         "DESIGN.md 5 (C01)"),
+ "C02": ("exploration",
+         "TLA+ specifications as generator (as C01); oracle = slogdet of the autodiff Jacobian of the plain transform in float64, one-sided at points the specification classifies as kinks, finite differences as tie-breaker where autodiff through clip/where is ambiguous",
+         "Same population and points as C01. The reported forward log-det must equal log|det| of jax.jacobian(transform); the inverse log-det must be minus the forward value at the corresponding point; both must be scalars. At kinks (spline interval end with boundary derivative != 1, planar leaky-relu hyperplane) either one-sided limit is accepted. The exact log2-dets of composites are model-checked under C08, exact spline derivatives under C07.",
+         "jnp.clip / jnp.where give gradient 1/2 or 0 at exact ties (e.g. a spline output landing exactly on its interval end), so an autodiff mismatch is re-judged with one-sided and central finite differences to 2e-4 before it is reported (the artefacts are multiples of ln 2).",
+         "DESIGN.md 5 (C02)"),
  "C03": ("model_checking",
          "TLA+ specification of the three evaluation paths of Transformed (log_prob / sample / sample_and_log_prob) over the exact combinator semantics with an exact-integer base distribution (Flows.tla), model-checked with TLC over nested expressions; every expression TLC prints is built from the real classes and all three methods (also after merge_transforms) compared with TLC's integers; real flows of all five factories checked against the property's statement via their public parts",
          "TLC checks PathsAgree, MergeTransformsSame, CondPropagates and InverseExact on every nesting (depth <= 2 quick, <= 3 thorough) of conditional / unconditional exact bases with conditional / unconditional bijection layers (affine, additive-condition, chains, Invert, Scan, mapped Vmap). Each state is an implementation test with absolute expected values, so a sign flip applied consistently to both paths, a condition that does not reach a conditional base, or a reversed merge_transforms changes an exact integer. Real flows (5 factories x invert x condition x transformer x dim, perturbed parameters) are checked relationally with base_dist / bijection.",
@@ -28,6 +38,11 @@ CHECKS = {
          "TLC enumerates every composition the builder machine grows (depth 1 exhaustively in quick, depth 2 = 1.8e5 programs in thorough, plus simulated depth-3 programs) over leaf kinds x shape lattice x every valid axis incl. negative ones x Partial index kinds x mapped/broadcast Vmap x condition axes, and checks DeclaredShapeIsSemantic, RoundTrip, LogDetsOpposite, MergeChainsSame, InvertSwaps on each; each program is an implementation test whose expected outputs, log2-dets and shapes TLC computed from the definitions (like jnp.stack / slice by slice / only the indexed entries). The shape formulas as found at the pinned commit are refuted by TLC (Stack / Vmap negative axes; repaired by fix: commits).",
          "Leaf parameters are installed exactly (Affine scale replaced by a power-of-two array via eqx.tree_at, as its docstring documents); dyadic float64 arithmetic is exact, so equality is bit-for-bit; log-dets are compared with log2-det * ln 2 to 1e-12.",
          "DESIGN.md 4.6, 5 (C08)"),
+ "C18": ("exploration",
+         "TLA+ specifications as generator (Elementary.tla guards give the boundary set of every leaf); oracle = finiteness of log_prob and of its input and parameter gradients on the real code",
+         "Every population entry in both orientations inside Transformed(StandardNormal, .) at the boundary-directed points: log_prob must be a number or -inf, never NaN; where it is finite, jax.grad w.r.t. the input and eqx.filter_grad w.r.t. every parameter must be finite.",
+         "The orientation whose log_prob runs the bisection inverter is checked for the value clause only (reverse-mode differentiation through lax.while_loop is refused by JAX by design).",
+         "DESIGN.md 5 (C18)"),
  "C09": ("model_checking",
          "TLA+ specifications of the rank-mask composition, the sequential inverse and the block sign algebra (Masks.tla, BlockMasks.tla) model-checked with TLC over the whole configuration grid; every configuration TLC prints is built for real and its Jacobian patterns / masks compared with TLC's reach sets and mask matrices",
          "The structure is discrete algebra over a finite grid, so TLC decides it exhaustively (dim 1..5 x cond {0,1,2} x width 1..7 x depth 0..3 x params 1..3 in the thorough tier; every block shape <= 3x3, <= 4 blocks, offsets -2..2; block networks to depth 3). Each printed configuration becomes an implementation test whose expected dependency set was computed by TLC; weights are set after construction (all-positive, and random of both signs up to 1e3) so that masks applied only at construction would be exposed.",
@@ -48,6 +63,11 @@ CHECKS = {
          "TLC generates valid compositions and the documented incompatibilities (mismatched shapes in Chain / Concatenate / Stack, mismatched condition shapes, a Partial index set that does not fit, a Reshape that changes the element count) with their expected verdicts; the harness then tries, for each program and each real class, every shape NumPy would silently broadcast (scalar, size-1 axis, extra leading/trailing axis, transposed, flattened, one extent off), a missing and a mis-shaped condition on all four methods (about 1.3e4 rejected calls in quick).",
          "Any exception counts as rejection. Only the incompatibilities the property names are demanded of constructors; index values are kept in range (JAX clamps out-of-range integer indices by design).",
          "DESIGN.md 4.6, 5 (C13)"),
+ "C14": ("exploration",
+         "TLA+ specifications as generator (as C01); oracle = the implementation under another interpreter: eager twice, eqx.filter_jit of the bound method, jax.vmap against a Python loop, tree_flatten/unflatten copy, tree_serialise_leaves into a freshly built model",
+         "Every population entry x every method: a trace-time failure (Python branch on a tracer, NumPy on a tracer, boolean-mask indexing) is a violation; values must agree to 1e-9 relative (1e-4 for bisection-inverted maps) and copies in the same mode must be bit-identical. Distributions (named families and flows) likewise for log_prob and sample.",
+         "eager vs jit and vmap vs loop are not bit-identical on correct code (XLA fuses differently), hence the relative tolerance.",
+         "DESIGN.md 5 (C14)"),
  "C15": ("model_checking",
          "TLA+ state machine of fit_to_data (FitToData.tla, Batching.tla) model-checked with TLC; recorded event traces of the real fit_to_data validated against Trace_FitToData.tla by TLC; TLC-enumerated helper cases replayed into get_batches/train_val_split",
          "TLC exhausts the data-flow model (every split, every batch choice, symmetric rows, every batch size) for the clauses of C15 as invariants; every recorded execution of the real loop over a grid of (n, batch_size, val_prop, condition, epochs) is accepted or rejected by TLC against the same clauses at every step. Right level: the property is a statement about every history of a loop with state.",
